@@ -1,0 +1,90 @@
+// Copyright 2017 Pilosa Corp.
+//
+// Licensed under the Apache License, Version 2.0 (the "License");
+// you may not use this file except in compliance with the License.
+// You may obtain a copy of the License at
+//
+//     http://www.apache.org/licenses/LICENSE-2.0
+//
+// Unless required by applicable law or agreed to in writing, software
+// distributed under the License is distributed on an "AS IS" BASIS,
+// WITHOUT WARRANTIES OR CONDITIONS OF ANY KIND, either express or implied.
+// See the License for the specific language governing permissions and
+// limitations under the License.
+
+//go:build verif
+// +build verif
+
+package pilosa
+
+import (
+	"sort"
+	"time"
+)
+
+// Export shims for the verification harness (/verif, properties C18 and C19). Add-only, tag-guarded.
+
+// VerifC18ViewsByTimeRange exposes viewsByTimeRange.
+func VerifC18ViewsByTimeRange(name string, start, end time.Time, q TimeQuantum) []string {
+	return viewsByTimeRange(name, start, end, q)
+}
+
+// VerifC18ViewsByTime exposes viewsByTime.
+func VerifC18ViewsByTime(name string, t time.Time, q TimeQuantum) []string {
+	return viewsByTime(name, t, q)
+}
+
+// VerifC18ViewByTimeUnit exposes viewByTimeUnit.
+func VerifC18ViewByTimeUnit(name string, t time.Time, unit rune) string {
+	return viewByTimeUnit(name, t, unit)
+}
+
+// VerifC18TimeOfView exposes timeOfView.
+func VerifC18TimeOfView(v string, adj bool) (time.Time, error) { return timeOfView(v, adj) }
+
+// VerifC18MinMaxViews exposes minMaxViews (on a copy: it sorts its argument).
+func VerifC18MinMaxViews(views []string, q TimeQuantum) (string, string) {
+	return minMaxViews(append([]string(nil), views...), q)
+}
+
+// VerifC18AddMonth exposes addMonth.
+func VerifC18AddMonth(t time.Time) time.Time { return addMonth(t) }
+
+// VerifC18NextGTE exposes nextYearGTE / nextMonthGTE / nextDayGTE.
+func VerifC18NextGTE(unit rune, t, end time.Time) bool {
+	switch unit {
+	case 'Y':
+		return nextYearGTE(t, end)
+	case 'M':
+		return nextMonthGTE(t, end)
+	case 'D':
+		return nextDayGTE(t, end)
+	}
+	panic("verif: unknown unit")
+}
+
+// VerifC19ViewNames lists the names of the field's views, sorted.
+func VerifC19ViewNames(f *Field) []string {
+	var names []string
+	for _, v := range f.views() {
+		names = append(names, v.name)
+	}
+	sort.Strings(names)
+	return names
+}
+
+// VerifC19ViewsWithBit scans every view of the field and returns, sorted, the names of those
+// whose row rowID contains colID.
+func VerifC19ViewsWithBit(f *Field, rowID, colID uint64) []string {
+	var names []string
+	for _, v := range f.views() {
+		for _, c := range v.row(rowID).Columns() {
+			if c == colID {
+				names = append(names, v.name)
+				break
+			}
+		}
+	}
+	sort.Strings(names)
+	return names
+}
